@@ -33,3 +33,22 @@ func TestKVWitnessPerfZeroBase(t *testing.T) {
 		}
 	}
 }
+
+// Second witness (same function): a transaction annotated `@performance()` is no external deposit or
+// withdrawal, but its amount - already contained in the end value - was added once more through
+// PortfolioInflow/PortfolioOutflow: a dividend of 100 on a portfolio of 1000 gave the factor 1.2 instead of 1.1.
+func TestKVWitnessPerfPortfolioEffect(t *testing.T) {
+	chf := registry.New().Commodities().MustGet("CHF")
+	// what ComputeFlows records for `@performance()` Income:Dividends -> Assets:Bank 100 CHF
+	p := &journal.Performance{
+		V0:               map[*model.Commodity]float64{chf: 1000},
+		V1:               map[*model.Commodity]float64{chf: 1100},
+		InternalInflow:   map[*model.Commodity]float64{chf: 100},
+		PortfolioOutflow: -100,
+	}
+	f := Performance(p)
+	fmt.Printf("no external flows, value 1000 -> 1100: daily factor %v\n", f)
+	if math.Abs(f-1.1) > 1e-12 {
+		fmt.Printf("REPLAY-CONFIRMED @noflows: without external flows the factor must be end value over start value = 1.1, got %v\n", f)
+	}
+}
